@@ -199,6 +199,10 @@ def validate_trace(trace_path, timeout=3000, module="TraceContract"):
     viol = json.loads(js)
     st = tlc_stats(out)
     st["wall_s"] = round(dt, 2)
+    m2 = re.search(r'<<"PROBECLASSES", <<([0-9, ]+)>>>>', out)
+    if m2:
+        n = [int(x) for x in m2.group(1).split(",")]
+        st["probe_classes"] = dict(zip(["entity_live", "entity_stale", "entity_forged", "direct_current", "direct_dead", "direct_foreign"], n))
     return viol, st
 
 
